@@ -2,6 +2,7 @@
 use crate::run::Builder;
 pub mod mutex;
 pub mod sem;
+pub mod reuse;
 pub mod park;
 pub mod scope;
 pub mod cqueue;
@@ -14,6 +15,8 @@ pub fn lookup(name: &str) -> Option<Builder> {
     match name {
         "mutex" => Some(mutex::build),
         "sem" => Some(sem::build),
+        "reuse" => Some(reuse::build),
+        "cls" => Some(reuse::build_cls),
         "park" => Some(park::build),
         "scope" => Some(scope::build),
         "cqueue" => Some(cqueue::build),
